@@ -22,7 +22,11 @@ def check(ctx):
     pC06.compiled_mode_rules(ctx, "C02.h")   # every configured pattern reaches the compiler, unmodified
     from . import pC15
     pC15.parse_pipeline(ctx, "C02.k")   # patterns and lookaheads: the text parsed is the configured text, default parser configuration
-    from .common import compiled_scanner_is_frozen
+    # the automaton the property speaks about is the minimized one: the minimizer's own side conditions belong here as well
+    from . import minimizer_rules
+    minimizer_rules.analyze(ctx, {"C03.a", "C03.b", "C03.c", "C03.d", "C03.e", "C03.f", "C03.g", "C03.h"})
+    from .common import compiled_scanner_is_frozen, key_types_compare_structurally
+    key_types_compare_structurally(ctx, "C02.n")
     compiled_scanner_is_frozen(ctx, "C02.m")   # nothing edits a compiled automaton after the pipeline produced it
     from . import casts
     casts.analyze(ctx, {"C17.a"})   # ids of states, groups and classes are injective
